@@ -62,7 +62,7 @@ struct SeamEvent {
 
 struct Block {
     int id; int disp; u8* p; size_t size; int task; int op; bool live; bool via_libc; int freed_op;
-    bool zero_at_free; bool wiped_by_memzero;
+    bool zero_at_free; bool wiped_by_memzero; u8* base; bool recycled;
     std::vector<std::pair<u64, u64>> zeroed;    // ranges passed to the current memzero during the freeing op
 };
 
@@ -159,5 +159,5 @@ u32 guards_hit();
 }
 
 namespace gen {
-Plan make(const std::string& prop, u64 seed, int variant);
+Plan make(const std::string& prop, u64 seed, int variant, bool fresh = false);
 }
